@@ -106,8 +106,18 @@ pub fn compile<TCompilationProfile: CompilationProfile>(
         &mut state.file_system_state,
     );
 
-    let total_artifacts_written = apply_file_system_operations(&file_system_operations, &artifacts)
-        .map_err(Diagnostic::from)?;
+    let total_artifacts_written =
+        match apply_file_system_operations(&file_system_operations, &artifacts) {
+            Ok(total_artifacts_written) => total_artifacts_written,
+            Err(e) => {
+                // Only some of the operations were applied, so the artifact directory matches
+                // neither the previous nor the new file system state. Forget the state, so
+                // that the next compilation recreates the artifact directory from scratch
+                // instead of diffing against artifacts that were never (fully) written.
+                state.file_system_state = None;
+                return Diagnostic::from(e).wrap_vec().wrap_err();
+            }
+        };
 
     CompilationStats {
         client_field_count: stats.client_field_count,
